@@ -90,7 +90,7 @@ func checkUnsafe(p *Program, r *Report) {
 			}
 		})
 	}
-	r.Floor("R03.1", "unsafe.Pointer conversions", n, 18)
+	r.Floor("R03.1", "unsafe.Pointer conversions", n, 9)
 }
 
 // ---- protocol order ----
